@@ -15,7 +15,7 @@ BOUNDS = {
              "routines with 0..3 spikes per train (n1+n2 <= 5; arguments as the callers build them, i.e. auxiliary edge "
              "spikes for empty trains where the caller adds them), SPIKE routines 0..2 spikes (plain and RI), get_tau for "
              "every index pair incl. -1 with <= 3 spikes, max_tau/MRTS symbolic; add routines with <= 3 pieces/events",
-    "thorough": "linear routines 3+3, SPIKE n1+n2 <= 5, add routines <= 4 pieces/events",
+    "thorough": "linear routines 3+3 (symbolic max_tau/MRTS up to n1+n2 <= 5), SPIKE n1+n2 <= 4 (max 3 each), add routines <= 4 pieces/events",
 }
 OUTSIDE = "the C compiler, Cython code generation, memoryview acquisition, the GIL; larger sizes; float rounding"
 ASSUMPTIONS = ["the .pyx side is the de-cythonized source (vf/decy.py): C doubles as exact reals, out-of-range memoryview "
@@ -41,7 +41,7 @@ def configs(tier):
                 if n1 + n2 > (5 if q else 6):
                     continue
                 for par in ("plain", "sym"):
-                    if q and par == "sym" and n1 + n2 > 4 and not r.startswith("isi"):
+                    if par == "sym" and n1 + n2 > (4 if q else 5) and not r.startswith("isi"):
                         continue
                     yield dict(name="%s-%s-%d+%d" % (r, par, n1, n2), routine=r, backend="pyx", par=par, n1=n1, n2=n2,
                                cost=5 ** (n1 + n2) * (3 if par == "sym" else 1),
@@ -50,7 +50,7 @@ def configs(tier):
         ns = 2 if q else 3
         for n1 in range(ns + 1):
             for n2 in range(ns + 1):
-                if n1 + n2 > 5:
+                if n1 + n2 > 4:
                     continue
                 for ri in (0, 1):
                     for par in ("plain", "sym"):
